@@ -665,6 +665,207 @@ fn record_b(sum: &mut Summary, known: &[String], drv: &mut Option<Driver>, label
     }
 }
 
+// ---------------------------------------------------------------------------------------
+// Part C: streaming readers (`blob_reader` read in pieces / seeks, several live readers, other reads of
+// the handle in between).  model: requests `c7b…` = MvModel/BlobReader.lean (one shared file offset);
+// oracle: every read returns exactly payload[pos .. pos + k) of the frame's put, k = min(n, len - pos),
+// with pos tracked by the harness alone; seeks answer like a bounded cursor.
+
+#[derive(Clone, Debug, PartialEq, Eq, Serialize, Deserialize)]
+enum SOp {
+    Open { frame: usize },
+    Read { h: usize, n: usize },
+    /// w: 0 = Start, 1 = Current, 2 = End
+    Seek { h: usize, w: u8, d: i64 },
+    /// another read through the handle (`frame_canonical_payload`, `frame_by_id`, `search`)
+    Touch { frame: usize, how: u8 },
+}
+
+#[derive(Clone, Debug, PartialEq, Eq, Serialize, Deserialize)]
+struct SCase {
+    /// (binary?, length, seed) of each put; binary payloads are stored Plain (file reader), text Zstd (memory reader)
+    payloads: Vec<(bool, usize, u64)>,
+    reopen: bool,
+    ops: Vec<SOp>,
+}
+
+fn stream_payload(binary: bool, len: usize, seed: u64) -> Vec<u8> {
+    let mut r = Rng::new(seed ^ 0x57ea);
+    if binary {
+        let mut v = r.bytes(len);
+        if let Some(b) = v.first_mut() { *b = 0xff; }   // not UTF-8
+        if len > 1 { v[1] = 0xfe; }
+        v
+    } else {
+        let words = ["granite", "harbor", "quantum", "ledger", "meadow", "orbit", "signal", "velvet"];
+        let mut t = String::new();
+        while t.len() < len { t.push_str(words[r.below(words.len() as u64) as usize]); t.push(' '); }
+        t.truncate(len);
+        t.into_bytes()
+    }
+}
+
+#[derive(Default)]
+struct SOutcome { trace: Vec<String>, oracle: Option<(String, String)>, disagree: Option<(String, String, String)>, branches: Vec<String>, reads: usize }
+
+fn run_stream_case(c: &SCase, drv: &mut Option<Driver>, verbose: bool) -> SOutcome {
+    let mut out = SOutcome::default();
+    let mut w = CWorld::create();
+    let mut payloads: Vec<Vec<u8>> = vec![];
+    for (i, (binary, len, seed)) in c.payloads.iter().enumerate() {
+        let bytes = stream_payload(*binary, *len, *seed);
+        w.ts += 10;
+        let opts = CPut::plain(Pay::Hex(String::new())).options(w.ts);
+        if w.mem.as_mut().unwrap().put_bytes_with_options(&bytes, opts).is_err() { out.trace.push(format!("put {i} refused")); return out; }
+        payloads.push(bytes);
+    }
+    if w.mem.as_mut().unwrap().commit().is_err() { out.trace.push("commit failed".into()); return out; }
+    if c.reopen {
+        w.mem = None;
+        match Memvid::open(&w.path) { Ok(m) => w.mem = Some(m), Err(_) => { out.trace.push("reopen failed".into()); return out; } }
+    }
+    let frames = verif_hooks::verif_frames(w.mem.as_ref().unwrap());
+    // whole payloads only (text below the chunk threshold): frame i = put i
+    if frames.len() != payloads.len() { out.trace.push("unexpected frame count".into()); return out; }
+    let file_bytes = std::fs::read(&w.path).unwrap_or_default();
+    let lo = frames.iter().filter(|f| f.payload_length > 0).map(|f| f.payload_offset).min().unwrap_or(0) as usize;
+    let hi = frames.iter().map(|f| (f.payload_offset + f.payload_length) as usize).max().unwrap_or(0).min(file_bytes.len());
+    let ask = |drv: &mut Option<Driver>, line: &str| -> Option<String> { drv.as_mut().map(|d| d.ask(line)) };
+    let _ = ask(drv, &format!("c7bfile base={lo} bytes={}", hexw0(&file_bytes[lo.min(hi)..hi])));
+    struct Live { rd: memvid_core::BlobReader, frame: usize, pos: u64 }
+    let mut live: Vec<Live> = vec![];
+    for (k, op) in c.ops.iter().enumerate() {
+        let (request, got): (String, String) = match op {
+            SOp::Open { frame } => {
+                let fi = *frame % frames.len();
+                let f = &frames[fi];
+                let plain = f.canonical_encoding != memvid_core::CanonicalEncoding::Zstd;
+                match w.mem.as_mut().unwrap().blob_reader(f.id) {
+                    Ok(rd) => {
+                        if rd.len() != payloads[fi].len() as u64 {
+                            out.oracle = Some(("blob-reader-length-differs-from-put".into(), format!("op {k}: blob_reader({}).len() = {} but the put had {} bytes", f.id, rd.len(), payloads[fi].len())));
+                        }
+                        live.push(Live { rd, frame: fi, pos: 0 });
+                        out.branches.push(if plain { "stream-open-file".into() } else { "stream-open-memory".into() });
+                        let req = if plain { format!("c7bopen start={} len={}", f.payload_offset, f.payload_length) } else { format!("c7bopenm data={}", hexw0(&payloads[fi])) };
+                        (req, format!("ok {}", live.len() - 1))
+                    }
+                    Err(e) => { out.oracle = Some(("blob-reader-open-failed".into(), format!("op {k}: blob_reader({}) of a committed frame fails: {}", f.id, err_kind(&e)))); break; }
+                }
+            }
+            SOp::Read { h, n } => {
+                if live.is_empty() { continue; }
+                let hi = *h % live.len();
+                let l = &mut live[hi];
+                let mut buf = vec![0u8; *n];
+                let r = l.rd.read(&mut buf);
+                let got = match r { Ok(k2) => { buf.truncate(k2); hexw0(&buf) } Err(_) => "io-error".to_string() };
+                // oracle: the reference cursor over the put's bytes
+                let p = &payloads[l.frame];
+                let from = (l.pos as usize).min(p.len());
+                let to = (from + *n).min(p.len());
+                let want = hexw0(&p[from..to]);
+                if got != want && out.oracle.is_none() {
+                    out.oracle = Some(("stream-read-differs-from-put".into(), format!("op {k}: reader {hi} (frame {}, {} bytes) at position {} read({}) returned {} bytes {}…, the put's bytes there are {}…",
+                        l.frame, p.len(), l.pos, n, got.len() / 2, got.chars().take(24).collect::<String>(), want.chars().take(24).collect::<String>())));
+                }
+                l.pos = to.max(l.pos as usize) as u64;
+                out.reads += 1;
+                if to - from > 0 && to < p.len() { out.branches.push("stream-partial-read".into()); }
+                (format!("c7bread h={hi} n={n}"), got)
+            }
+            SOp::Seek { h, w: wh, d } => {
+                if live.is_empty() { continue; }
+                let hi = *h % live.len();
+                let l = &mut live[hi];
+                let sf = match wh { 0 => SeekFrom::Start((*d).max(0) as u64), 1 => SeekFrom::Current(*d), _ => SeekFrom::End(*d) };
+                let r = l.rd.seek(sf);
+                let got = match &r {
+                    Ok(p) => format!("ok {p}"),
+                    Err(e) => { let m = e.to_string(); if m.contains("before start") { "err before-start".into() } else if m.contains("beyond end") { "err beyond-end".into() } else { "err overflow".to_string() } }
+                };
+                if let Ok(p) = r { l.pos = p; }
+                out.branches.push(if r.is_ok() { "stream-seek-ok".into() } else { "stream-seek-refused".into() });
+                (format!("c7bseek h={hi} w={} d={}", ["s", "c", "e"][(*wh).min(2) as usize], if *wh == 0 { (*d).max(0) } else { *d }), got)
+            }
+            SOp::Touch { frame, how } => {
+                let fi = *frame % frames.len();
+                let mem = w.mem.as_mut().unwrap();
+                match how % 3 {
+                    0 => { let _ = mem.frame_canonical_payload(frames[fi].id); }
+                    1 => { let _ = mem.blob_reader(frames[fi].id).map(|mut r| { let mut b = [0u8; 7]; let _ = r.read(&mut b); }); }
+                    _ => { let _ = mem.search(memvid_core::SearchRequest { query: "granite".into(), top_k: 3, snippet_chars: 40, uri: None, scope: None, cursor: None,
+                            as_of_frame: None, as_of_ts: None, no_sketch: false, acl_context: None, acl_enforcement_mode: Default::default() }); }
+                }
+                out.branches.push("stream-touch".into());
+                (format!("c7btouch o={}", k * 37), "ok".to_string())
+            }
+        };
+        out.trace.push(format!("{request} -> {got}"));
+        if verbose { println!("  {request} -> {got}"); }
+        if let Some(m) = ask(drv, &request) {
+            if m != got && out.disagree.is_none() { out.disagree = Some((format!("op {k}: {request}"), m, got.clone())); }
+        }
+        if out.oracle.is_some() || out.disagree.is_some() { break; }
+    }
+    out
+}
+
+fn gen_stream_case(rng: &mut Rng) -> SCase {
+    let n = rng.usize(2, 5);
+    let payloads: Vec<(bool, usize, u64)> = (0..n).map(|_| {
+        let binary = rng.chance(3, 4);
+        let len = *rng.pick(&[1usize, 2, 7, 31, 64, 200, 513, 1024, 1900]);
+        (binary, if binary { len } else { len.max(8) }, rng.u64())
+    }).collect();
+    let mut ops = vec![SOp::Open { frame: rng.usize(0, n - 1) }];
+    let nops = rng.usize(8, 40);
+    for _ in 0..nops {
+        let r = rng.below(100);
+        ops.push(if r < 12 { SOp::Open { frame: rng.usize(0, n - 1) } }
+            else if r < 62 { SOp::Read { h: rng.usize(0, 7), n: *rng.pick(&[0usize, 1, 2, 3, 5, 8, 16, 33, 100, 600, 4096]) } }
+            else if r < 80 { SOp::Seek { h: rng.usize(0, 7), w: rng.below(3) as u8, d: *rng.pick(&[0i64, 1, -1, 2, -3, 7, 30, -40, 500, 2000, -2000, i64::MAX, i64::MIN]) } }
+            else { SOp::Touch { frame: rng.usize(0, n - 1), how: rng.below(3) as u8 } });
+    }
+    SCase { payloads, reopen: rng.bool(), ops }
+}
+
+fn corpus_c() -> Vec<(String, SCase)> {
+    vec![
+        // two readers of two binary frames read alternately, another read of the handle in between
+        ("two-readers-interleaved".into(), SCase { payloads: vec![(true, 64, 1), (true, 100, 2), (false, 40, 3)], reopen: false,
+            ops: vec![SOp::Open { frame: 0 }, SOp::Open { frame: 1 }, SOp::Read { h: 0, n: 10 }, SOp::Read { h: 1, n: 10 }, SOp::Read { h: 0, n: 10 },
+                      SOp::Touch { frame: 1, how: 0 }, SOp::Read { h: 0, n: 100 }, SOp::Read { h: 1, n: 500 }, SOp::Read { h: 1, n: 5 }] }),
+        ("read-touch-read".into(), SCase { payloads: vec![(true, 200, 4), (true, 31, 5)], reopen: true,
+            ops: vec![SOp::Open { frame: 0 }, SOp::Read { h: 0, n: 16 }, SOp::Touch { frame: 1, how: 0 }, SOp::Read { h: 0, n: 16 }, SOp::Touch { frame: 0, how: 1 }, SOp::Read { h: 0, n: 16 },
+                      SOp::Touch { frame: 0, how: 2 }, SOp::Read { h: 0, n: 4096 }] }),
+        ("seeks".into(), SCase { payloads: vec![(true, 513, 6), (false, 64, 7)], reopen: false,
+            ops: vec![SOp::Open { frame: 0 }, SOp::Open { frame: 1 }, SOp::Seek { h: 0, w: 2, d: -13 }, SOp::Read { h: 0, n: 100 }, SOp::Seek { h: 0, w: 1, d: -600 }, SOp::Seek { h: 0, w: 0, d: 514 },
+                      SOp::Seek { h: 0, w: 0, d: 513 }, SOp::Read { h: 0, n: 1 }, SOp::Seek { h: 1, w: 0, d: 100 }, SOp::Read { h: 1, n: 5 }, SOp::Seek { h: 1, w: 1, d: -101 }, SOp::Seek { h: 0, w: 1, d: i64::MAX },
+                      SOp::Seek { h: 0, w: 2, d: i64::MIN }, SOp::Seek { h: 0, w: 1, d: -500 }, SOp::Read { h: 0, n: 8 }] }),
+    ]
+}
+
+fn record_c(sum: &mut Summary, drv: &mut Option<Driver>, label: &str, c: &SCase, out: SOutcome) {
+    for b in &out.branches { sum.branch(b); }
+    sum.case(&format!("stream|{}", out.trace.join(";")), out.reads >= 2, || json!({"label": label, "part": "stream", "ops": c.ops.len(), "reads": out.reads, "trace_tail": out.trace.iter().rev().take(2).collect::<Vec<_>>()}));
+    if out.oracle.is_none() && out.disagree.is_none() { return; }
+    let want: Option<String> = out.oracle.as_ref().map(|o| o.0.clone());
+    let t0 = std::time::Instant::now();
+    let mut fails = |cand: &[SOp]| -> bool {
+        if t0.elapsed().as_secs() > 20 { return false; }
+        let o = run_stream_case(&SCase { ops: cand.to_vec(), ..c.clone() }, drv, false);
+        match &want { Some(s) => o.oracle.as_ref().map(|x| &x.0) == Some(s), None => o.disagree.is_some() && o.oracle.is_none() }
+    };
+    let small = shrink_list(&c.ops, &mut fails);
+    let sc = SCase { ops: small, ..c.clone() };
+    let o2 = run_stream_case(&sc, drv, false);
+    let (oracle, disagree) = if o2.oracle.is_some() || o2.disagree.is_some() { (o2.oracle, o2.disagree) } else { (out.oracle, out.disagree) };
+    let case = json!({"kind": "stream", "label": label, "case": serde_json::to_value(&sc).unwrap()});
+    if let Some((sig, what)) = oracle { sum.oracle_violation(&sig, &what, case.clone()); }
+    if let Some((what, m, i)) = disagree { sum.disagreement(&what, case, &m, &i); }
+}
+
 fn corpus_b() -> Vec<(String, Vec<hist::Op>)> {
     use hist::{Op, PutSpec, UpdSpec};
     let put = |kind, len, seed, ts| Op::Put(PutSpec::simple(PayloadSpec::new(kind, len, seed), ts));
@@ -686,13 +887,20 @@ fn main() {
         two acknowledged mutations and a commit point (B); distinct = op/answer trace";
     let mut sum = Summary::new("C07", &args, rule);
     sum.expect_branches(&["put-whole-plain", "put-whole-zstd", "put-chunked", "put-empty", "put-near-threshold", "put-without-search-text", "apply-reads-fresh-payload",
-        "oracle-whole", "oracle-chunked", "oracle-normalized", "op-reopen", "op-crash", "level-0", "level-9", "hist-whole-frame", "hist-chunked-document"]);
+        "oracle-whole", "oracle-chunked", "oracle-normalized", "op-reopen", "op-crash", "level-0", "level-9", "hist-whole-frame", "hist-chunked-document",
+        "stream-open-file", "stream-open-memory", "stream-partial-read", "stream-seek-ok", "stream-seek-refused", "stream-touch"]);
     let known: Vec<String> = args.extra.get("known").map(|s| s.split(',').map(|x| x.to_string()).collect()).unwrap_or_default();
 
     if args.mode == "replay" {
         let case = load_replay(args.replay_file.as_ref().expect("replay file"));
         let input = case.get("input").unwrap_or(&case).clone();
-        if input["kind"] == "history" {
+        if input["kind"] == "stream" {
+            let c: SCase = serde_json::from_value(input["case"].clone()).expect("stream case in replay file");
+            let out = run_stream_case(&c, &mut drv, true);
+            if let Some((sig, what)) = &out.oracle { println!("ORACLE {sig}: {what}"); }
+            if let Some((w, m, i)) = &out.disagree { println!("DISAGREE {w}\n  model: {m}\n  impl : {i}"); }
+            record_c(&mut sum, &mut drv, "replay", &c, out);
+        } else if input["kind"] == "history" {
             let ops = hist::ops_from_json(&input["ops"]);
             let mut oracle = |v: &mut StepView| history_oracle(v);
             if !args.extra.get("histmodel").map(|s| s == "1").unwrap_or(false) { drv = None; }
@@ -736,6 +944,20 @@ fn main() {
         let t1 = t0.elapsed().as_secs_f32();
         record_a(&mut sum, &known, &mut drv, &format!("content-{k}"), &ops, out);
         if timing { eprintln!("[t] content-{k} ({} ops): run {t1:.1}s total {:.1}s", ops.len(), t0.elapsed().as_secs_f32()); }
+    }
+    // Part C: streaming readers
+    let n_c: usize = args.extra.get("nstream").and_then(|s| s.parse().ok()).unwrap_or(if args.thorough { 400 } else { 40 });
+    for (label, c) in corpus_c() {
+        let out = run_stream_case(&c, &mut drv, false);
+        sum.branch("corpus-stream");
+        record_c(&mut sum, &mut drv, &label, &c, out);
+    }
+    for k in 0..n_c {
+        if sum.oracle_violations.len() + sum.disagreements.len() >= max_fail { break; }
+        let mut r = rng.fork();
+        let c = gen_stream_case(&mut r);
+        let out = run_stream_case(&c, &mut drv, false);
+        record_c(&mut sum, &mut drv, &format!("stream-{k}"), &c, out);
     }
     // Part B: the Core model's own correspondence is the obligation of C01 / C06; here the shared runner
     // drives the implementation for the content oracle (`--histmodel 1` adds the model comparison)
